@@ -115,8 +115,78 @@ class Judge:
                 return
 
 
+def vec_names(ref_ranks):
+    return sorted({r["name"] for recs in ref_ranks for r in recs if r.get("t") == "vec"})
+
+
+def judge_sync(j, ranks, suffix):
+    """sync_0 = sum over sharers exactly once, sync_1 = common mean, for the vector component `suffix`"""
+    pre = vecs_of(ranks, "sync0_pre" + suffix)
+    post = vecs_of(ranks, "sync0_post" + suffix)
+    tot, cnt = {}, {}
+    for d in pre:
+        for k, v in d.items():
+            tot[k] = tot.get(k, 0.0) + v
+            cnt[k] = cnt.get(k, 0) + 1
+    for r, d in enumerate(post):
+        for k, v in d.items():
+            j.events += 1
+            if not close(v, tot[k], 1e-13, 1e-13 * cnt[k]):
+                j.viol("gate.sync_0", "not-sum-over-sharers", dict(component=suffix, key=[k[0] * 1e-7, k[1] * 1e-7], rank=r, got=v, expected_sum=tot[k],
+                                                                 sharers=cnt[k], pre_values=[p.get(k) for p in pre if k in p]))
+                break
+    pre = vecs_of(ranks, "sync1_pre" + suffix)
+    post = vecs_of(ranks, "sync1_post" + suffix)
+    tot, cnt = {}, {}
+    for d in pre:
+        for k, v in d.items():
+            tot[k] = tot.get(k, 0.0) + v
+            cnt[k] = cnt.get(k, 0) + 1
+    for r, d in enumerate(post):
+        for k, v in d.items():
+            j.events += 1
+            if not close(v, tot[k] / cnt[k], 1e-13, 1e-13):
+                j.viol("gate.sync_1", "not-common-value", dict(component=suffix, key=[k[0] * 1e-7, k[1] * 1e-7], rank=r, got=v,
+                                                             expected_mean=tot[k] / cnt[k], sharers=cnt[k]))
+                break
+
+
+def judge_stokes(j, ranks, ref_ranks, nprocs):
+    """blocked velocity + scalar pressure (tuple vector): syncs, dot/norms, saddle-point matvec"""
+    sc = scalars_of(ranks)
+    ref_sc = scalars_of(ref_ranks)[0]
+    for suf in (".v0", ".v1", ".p"):
+        judge_sync(j, ranks, suf)
+        for name, rel, ab in (("u", 0, 0), ("w", 0, 0), ("A_u", 1e-11, 1e-12), ("w_minus_half_A_u", 1e-11, 1e-12)):
+            m = j.merged_consistent(vecs_of(ranks, name + suf), name + suf, 1e-12, 1e-13)
+            j.compare_ref(m, vecs_of(ref_ranks, name + suf)[0], name + suf, rel, ab)
+    for name, (rel, ab) in {"dot_u_w": (1e-11, 1e-12), "norm2_u": (1e-12, 0), "norm2sqr_w": (1e-12, 0), "max_abs_u": (0, 0)}.items():
+        vals = [s.get(name) for s in sc]
+        j.events += 1
+        if any(v is None for v in vals) or name not in ref_sc:
+            j.viol("dist." + name, "scalar-missing", dict(values=vals))
+        elif any(v != vals[0] for v in vals):
+            j.viol("dist." + name, "ranks-disagree", dict(values=vals))
+        elif not close(vals[0], ref_sc[name], rel, ab):
+            j.viol("dist." + name, "differs-from-serial", dict(distributed=vals[0], serial=ref_sc[name], nprocs=nprocs))
+    # recomputed from the undecomposed (serial) vectors
+    dot = 0.0
+    nrm = 0.0
+    for suf in (".v0", ".v1", ".p"):
+        ru, rw = vecs_of(ref_ranks, "u" + suf)[0], vecs_of(ref_ranks, "w" + suf)[0]
+        dot += math.fsum(ru[k] * rw[k] for k in ru)
+        nrm += math.fsum(v * v for v in ru.values())
+    j.events += 2
+    if not close(sc[0].get("dot_u_w", float("nan")), dot, 1e-11, 1e-12):
+        j.viol("dist.dot_u_w", "differs-from-recomputed", dict(distributed=sc[0].get("dot_u_w"), recomputed=dot))
+    if not close(sc[0].get("norm2_u", float("nan")), math.sqrt(nrm), 1e-12, 0):
+        j.viol("dist.norm2_u", "differs-from-recomputed", dict(distributed=sc[0].get("norm2_u"), recomputed=math.sqrt(nrm)))
+
+
 def judge_run(j, ranks, ref_ranks, nprocs):
     """ranks: logs of the distributed run; ref_ranks: logs of the p=1 run"""
+    if j.desc.get("space") == "stokes":
+        return judge_stokes(j, ranks, ref_ranks, nprocs)
     sc = scalars_of(ranks)
     ref_sc = scalars_of(ref_ranks)[0]
     # --- sync_0: sum over sharers exactly once
@@ -164,7 +234,8 @@ def judge_run(j, ranks, ref_ranks, nprocs):
     for name in sorted(names):
         vs = vecs_of(ranks, name)
         if not any(vs):
-            j.viol("transfer." + name.split("_L")[0], "level-missing", dict(name=name))
+            # the distributed hierarchy legitimately has fewer levels than the serial one (no level below the
+            # partitioning level): nothing to compare
             continue
         m = j.merged_consistent(vs, name, 1e-11, 1e-12)
         j.compare_ref(m, vecs_of(ref_ranks, name)[0], name, 1e-10, 1e-12)
@@ -261,7 +332,7 @@ def run(pid, spec, unit, binp, tier, seed, workdir, overlay, scale):
     confs = []
     for c in range(nconf):
         mesh, lmaxs, lmin = MESHES[0] if (c == 0 and tier == "quick") else MESHES[rng.randrange(len(MESHES))]
-        confs.append(dict(k=c, mesh=mesh, lmax=rng.choice(lmaxs), lmin=lmin, space=rng.choice(["q1", "q2"]) if c else "q1",
+        confs.append(dict(k=c, mesh=mesh, lmax=rng.choice(lmaxs), lmin=lmin, space=("q1", "stokes")[c] if c < 2 else rng.choice(["q1", "q2", "q2", "stokes"]),
                           parti=rng.choice(["naive", "2level genetic naive", "genetic naive"]) if c else "2level naive",
                           data_seed=rng.randrange(1, 10 ** 6)))
     for conf in confs:
@@ -277,7 +348,7 @@ def run(pid, spec, unit, binp, tier, seed, workdir, overlay, scale):
             res["harness_errors"].append("C13 reference run failed for %s: %s" % (json.dumps(conf), err))
             continue
         plist = plist_quick if tier == "quick" else sorted(set([2, 3, 4, 5, 6, 7, 8] + rng.sample(range(9, 17), 4)))
-        ndofs = len(vecs_of(ref, "u")[0])
+        ndofs = len(vecs_of(ref, "u")[0]) or sum(len(vecs_of(ref, "u" + q)[0]) for q in (".v0", ".v1", ".p"))
         for p in plist:
             first_sol = None
             lv, base = args_for(p, rng.random() < 0.6)
@@ -317,8 +388,8 @@ def run(pid, spec, unit, binp, tier, seed, workdir, overlay, scale):
                     if seq:
                         arrival_orders.setdefault((conf["k"], p, r), set()).add(hashlib.md5(repr(seq).encode()).hexdigest())
                 # schedule independence: solution under another arrival order equals the first one up to rounding
-                sol = j.merged_consistent(vecs_of(ranks, "pcgj_sol"), "pcgj_sol", 1e-9, 1e-9)
-                if sol is not None:
+                sol = j.merged_consistent(vecs_of(ranks, "pcgj_sol"), "pcgj_sol", 1e-9, 1e-9) if conf["space"] != "stokes" else None
+                if sol:
                     if first_sol is None:
                         first_sol = sol
                     else:
